@@ -128,7 +128,8 @@ C04V == IF Thorough THEN C04Vals ELSE C04ValsQ
 \* children {x: v1, y: v2} for all pairs, in chunks
 C04Children == Cross2(C04V, C04V, LAMBDA v, w : ObjOpt(<<cX, cY>>, <<v, w>>))
 C04ChunkDocs == LET ch == Chunks(C04Children, 40) IN [i \in 1..Len(ch) |-> JArr(ch[i])]
-C04Lits == IF Thorough THEN C04Prims ELSE <<JNull, JBool(TRUE), JInt(0), JInt(1), F(1, 0), F(1, -20), F(1, 2), JInt(100), F(1, 19), F(0, 0), JStr(<<>>), JStr(cA), JStr(<<233>>)>>
+\* integer literals beyond 2^53 are not written in queries (the implementation rejects them; unscoped, see adjudication log)
+C04Lits == IF Thorough THEN FilterSeq(C04Prims, LAMBDA v : ~(v.t = "num" /\ ~v.f /\ v.e > 15)) ELSE <<JNull, JBool(TRUE), JInt(0), JInt(1), F(1, 0), F(1, -20), F(1, 2), JInt(100), F(1, 19), F(0, 0), JStr(<<>>), JStr(cA), JStr(<<233>>)>>
 C04Single == JArr([i \in 1..Len(C04V) |-> ObjOpt(<<cX>>, <<C04V[i]>>)])
 C04Docs == C04ChunkDocs \o <<C04Single>>
 C04PairQ == [o \in 1..6 |-> Flt1(LCmp(CmpOps[o], RelN(cX), RelN(cY)))]
